@@ -169,6 +169,10 @@ main(void)
 			int      p    = mock_conn_done(0, peer, 0);
 			ev_add("pipe %d", p);
 			finish_line();
+		} else if (IS("pipe_id") && vn == 2) {
+			// the core's 32-bit id of pipe <p> (random start; canonicalised by the Python side)
+			ev_add("rv 0 %u", (unsigned) mock_pipe_id(atoi(vw[1])));
+			finish_line();
 		} else if (IS("pipe_drop") && vn == 2) {
 			ev_add("rv %d", mock_pipe_lose(atoi(vw[1])));
 			finish_line();
